@@ -235,9 +235,9 @@ Lemma frontlocal_order logs sched c :
 Proof. intros O. exact (order_complete true logs sched front c O (or_introl eq_refl)). Qed.
 
 (* the issue log of an issuer, restricted to a connection, is the restriction of everything issued *)
-Lemma proj_issue_log ops i c : proj i c (issue_log ops i) = proj i c (issue_from [] ops).
+Lemma proj_issue_log ops i c : proj i c (issue_log ops i) = proj i c (issue_from [] [] ops).
 Proof.
-  unfold issue_log, proj. induction (issue_from [] ops) as [|x r IH]; simpl; [reflexivity|].
+  unfold issue_log, proj. induction (issue_from [] [] ops) as [|x r IH]; simpl; [reflexivity|].
   destruct (Z.eqb (it_iss x) i) eqn:E; simpl; [rewrite E|]; rewrite IH; reflexivity.
 Qed.
 
@@ -317,4 +317,49 @@ Theorem size_independent fixed logs sched (f : item -> Z) :
 Proof.
   change (start (mapq (resize f) logs)) with (map_st (resize f) (start logs)).
   apply run_map; intro x; reflexivity.
+Qed.
+
+(* ---------- when a handler completes, and closed connections among the targets ---------- *)
+
+(* the same request, completing within the handler's own turn (false) or in a later one (true) *)
+Definition set_later (b : bool) (o : op) : op :=
+  match o with
+  | OSend c ty n1 n2 tag pads rpad mode targets _ kick => OSend c ty n1 n2 tag pads rpad mode targets b kick
+  | _ => o
+  end.
+
+Lemma later_irrelevant b ops : forall cs dead,
+  issue_from cs dead (map (set_later b) ops) = issue_from cs dead ops.
+Proof.
+  induction ops as [|o r IH]; intros cs dead; simpl; [reflexivity|].
+  assert (C : conn_step cs (set_later b o) = conn_step cs o) by (destruct o; reflexivity).
+  assert (D : dead_step cs dead (set_later b o) = dead_step cs dead o) by (destruct o; reflexivity).
+  rewrite C, D, IH. f_equal. destruct o; reflexivity.
+Qed.
+
+(* listing connections that get nothing (closed ones) among the targets of a multi-target push
+   changes nothing for any connection that does: it is sent every push, in order *)
+Lemma pushes_listed_closed i tag pads (keep : Z -> bool) targets from count c :
+  keep c = true ->
+  filter (fun x => Z.eqb (it_conn x) c) (pushes i tag pads (filter keep targets) from count) =
+  filter (fun x => Z.eqb (it_conn x) c) (pushes i tag pads targets from count).
+Proof.
+  intro K. unfold pushes. induction (zseq from count) as [|q r IH]; simpl; [reflexivity|].
+  rewrite !filter_app, IH. clear IH. f_equal.
+  induction targets as [|t ts IHt]; simpl; [reflexivity|].
+  destruct (keep t) eqn:E; simpl.
+  - destruct (Z.eqb t c); rewrite IHt; reflexivity.
+  - destruct (Z.eqb_spec t c); [congruence|]. exact IHt.
+Qed.
+
+(* a kicked connection is sent nothing that is issued from the kick on *)
+Lemma pushes_not_listed i tag pads targets from count c :
+  ~ In c targets ->
+  filter (fun x => Z.eqb (it_conn x) c) (pushes i tag pads targets from count) = [].
+Proof.
+  intro N. unfold pushes. induction (zseq from count) as [|q r IH]; simpl; [reflexivity|].
+  rewrite filter_app, IH, app_nil_r. clear IH.
+  induction targets as [|t ts IHt]; simpl; [reflexivity|].
+  destruct (Z.eqb_spec t c); [subst; exfalso; apply N; left; reflexivity|].
+  apply IHt. intro H. apply N. right. exact H.
 Qed.
